@@ -126,6 +126,16 @@ pub fn seeds() -> Vec<Seed> {
             }
         }
     }
+    // a compressed iCE Draw file whose last record is a run (the cells of its last row are equal)
+    {
+        let mut b = pattern_doc(80, 3, IceMode::Ice);
+        for x in 0..80 {
+            put(&mut b, x, 2, &Cell::new(b'r' as u32, 14, 1));
+        }
+        if let Some(bytes) = save(&b, "idf", false, true) {
+            add("idf 80x3 compressed, last row one run".to_string(), Kind::File("idf"), bytes);
+        }
+    }
     // XBin with two fonts + palette
     {
         let mut b = pattern_doc(9, 4, IceMode::Blink);
